@@ -104,9 +104,11 @@ func Judge(res *srvh.Result, exps []wire.Expect) (kind, msg string) {
 	rejectAt := -1
 	for i, e := range served {
 		if e.Declined {
-			// the engine declines to read this body (hertz still runs the handler, with the status preset to 417): the body the
-			// client sent anyway is indistinguishable from further requests, so nothing after this request may be served
+			// the engine declines to read this body: no handler may be shown the request without the body that belongs to it,
+			// the answer is the 4xx (417) with Connection: close, and - the body the client sent anyway being
+			// indistinguishable from further requests - nothing after this request is served
 			served = served[:i+1]
+			rejectAt = i
 			break
 		}
 		if e.InvalidName && len(res.Seen) == i {
@@ -440,6 +442,7 @@ func reduced() []wire.Spec {
 		with(S("POST", wire.FChunkedTrailer, 1), func(s *wire.Spec) { s.Close = true }),
 		with(S("POST", wire.FCLExpect, 8193), func(s *wire.Spec) { s.Extra = wire.XFoldSP }),
 		with(S("POST", wire.FChunkedTrailer, 2), func(s *wire.Spec) { s.TrUnannounced = true }),
+		with(S("POST", wire.FChunkedTrailer, 2), func(s *wire.Spec) { s.TrListTab = true }),
 		with(S("GET", wire.FNone, 0), func(s *wire.Spec) { s.Extra = wire.XTabOWS }),
 		with(S("POST", wire.FCL, 5), func(s *wire.Spec) { s.Extra = wire.XFoldColon }),
 		with(S("POST", wire.FCL, 5), func(s *wire.Spec) { s.TabFraming = true }),
